@@ -63,6 +63,37 @@ pub fn hostile_char(r: &mut Rng) -> char {
     }
 }
 
+/// Multi-character tokens a random character stream practically never spells: syntax of
+/// neighbouring formats (HTML entities, URLs, version ranges, extras, templates, shells) and
+/// the vocabulary of the ecosystems (what a "helpful" special case would key on).
+pub const DICTIONARY: &[&str] = &[
+    "&amp;", "&lt;", "&gt;", "&quot;", "&#38;", "&#x26;", "&nbsp;", "amp;", "://", "git+https://", "https://e.x/p?q=1#f", "file:///", "user:pw@", ":8080", "%20", "%2F",
+    "%25", "%252F", "%2B", "jar", "pom", "war", "sources", "javadoc", "tar.gz", "dll", "x86_64", "amd64", "i386", "noarch", "linux", "windows", "java", "ruby",
+    "x86_64-linux", "v2", "/v2", "/v10", "@v2", "[extra]", "[a,b]", "[]", "+build.1", "-rc.1", "1.0.0", "==1.0", ">=1", "~1", "^1", "@scope", "@latest", "SNAPSHOT",
+    "RELEASE", "latest", "${x}", "{{x}}", "$(x)", "`x`", "<x>", "';--", "\\", "\\n", "\r\n", "\t", "..", "../", "..\\", "./", "~", "*", "null", "None", "true", "NaN",
+    "0x1F", "1e9", "-0", "golang.org/x", "github.com", "org.apache", "k8s.io", "index.js", "pkg:", "pkg:npm/a", "?a=b", "#a", "&a=b", ";a=b", "==", "a=b=c",
+];
+
+/// The values the spec lists for well-known qualifier keys (and a few more of the kind).
+pub fn key_vocabulary(key: &str) -> &'static [&'static str] {
+    match key {
+        "type" => &["jar", "pom", "war", "ear", "zip", "tar.gz", "dll", "aar", "test-jar", "maven-plugin", "JAR"],
+        "classifier" => &["sources", "javadoc", "dist", "tests", "jdk8", "linux-x86_64"],
+        "platform" => &["java", "ruby", "jruby", "x86_64-linux", "universal-darwin"],
+        "arch" => &["x86_64", "amd64", "i386", "arm64", "noarch", "all", "src"],
+        "os" => &["linux", "windows", "darwin"],
+        "repository_url" => &["https://repo1.maven.org/maven2", "repo.spring.io/release", "docker.io", "https://e.x/a?b=c&d=e#f"],
+        "download_url" => &["https://e.x/n-1.0.tgz", "http://e.x/a%20b", "ftp://e.x/a"],
+        "vcs_url" => &["git+https://github.com/a/b.git@abc", "git+ssh://git@e.x/a", "svn+https://e.x/a", "hg+https://e.x", "git://e.x/a.git#v1"],
+        "file_name" => &["n-1.0.tgz", "a b.jar", "a/b.zip", "n.tar.gz"],
+        _ => &["1", "true", "stable", "main"],
+    }
+}
+
+pub fn dict_token(r: &mut Rng) -> &'static str {
+    *r.pick(DICTIONARY)
+}
+
 /// A string mixing plain alphanumerics with hostile characters. `hostility` in percent.
 pub fn mixed_string(r: &mut Rng, min: usize, max: usize, hostility: usize) -> String {
     let n = r.range(min, max);
@@ -71,6 +102,8 @@ pub fn mixed_string(r: &mut Rng, min: usize, max: usize, hostility: usize) -> St
         if r.below(100) < hostility {
             if r.chance(1, 12) {
                 s.push_str(*r.pick(ESCAPE_LOOKALIKES));
+            } else if r.chance(1, 12) {
+                s.push_str(dict_token(r));
             } else {
                 s.push(hostile_char(r));
             }
@@ -353,6 +386,19 @@ pub fn large_inputs(size: usize) -> Vec<(String, String)> {
     v.push(("long-name-upper-nuget".into(), format!("pkg:nuget/{}", rep("A", size))));
     v.push(("long-name-pypi-dashes".into(), format!("pkg:pypi/{}", rep("-_.", size))));
     v.push(("long-name-unicode-nuget".into(), format!("pkg:nuget/{}", rep("Æ", size))));
+    // many units of structure rather than one long unit (depth of anything done per unit)
+    v.push(("many-separator-runs-pypi".into(), format!("pkg:pypi/{}", rep("a-", size))));
+    v.push(("many-mixed-separator-runs-pypi".into(), format!("pkg:pypi/{}", rep("A_.b-", size))));
+    v.push(("many-case-changes-nuget".into(), format!("pkg:nuget/{}", rep("aÆbC", size))));
+    v.push(("many-alternating-subpath-segments".into(), format!("pkg:t/n#{}", rep("a/./b/../", size))));
+    v.push(("many-alternating-escapes".into(), format!("pkg:t/{}", rep("a%41", size))));
+    {
+        let n = (size / 10).min(50_000).max(2);
+        let entries: Vec<String> = (0..n).map(|i| format!("a{i:06}:00")).collect();
+        v.push(("many-checksum-entries".into(), format!("pkg:t/n?checksum={}", entries.join(","))));
+        let entries: Vec<String> = (0..n).rev().map(|i| format!("A{i:06}:FF")).collect();
+        v.push(("many-checksum-entries-descending-upper".into(), format!("pkg:t/n?checksum={}", entries.join(","))));
+    }
     v.push(("long-version".into(), format!("pkg:t/n@{}", rep("1.", size))));
     v.push(("many-namespace-segments".into(), format!("pkg:t/{}n", rep("a/", size))));
     v.push(("many-empty-namespace-segments".into(), format!("pkg:t/{}n", rep("/", size))));
